@@ -73,8 +73,8 @@ def async_scenario(env, ack_args, coro_handlers=True):
                     'errors': loop.collect_errors(),
                     'parked': [lb for lb, f in loop.parked if not f.done()],
                     'outstanding': sorted(
-                        k for k in sio.manager.callbacks.get(sid, {})
-                        if k != 0)}
+                        __import__('mc.introspect', fromlist=['x'])
+                        .callbacks_of(sio.manager).get(sid, {}))}
         return finish
     return scenario
 
